@@ -9,16 +9,17 @@ variable [MInv] {P : Program} {cfg : Cfg} {env : CEnv} {G : Grammar} {inp : List
 /-- The choice wrapper: `{ positionN, tokenIndexN := … ; <alternatives> } lN:` -/
 theorem good_alt_of_goodAlt {es p res evs} (h : GoodAlt P cfg env inp es p res evs) :
     Good P cfg env inp (.alt es) p res evs := by
-  intro ko st code pc s f hc hp
+  intro ko pd pmk st code pc s f hc hp hlead
+  simp only [Lead] at hlead
   norm_code at hc
   obtain ⟨h1, hc⟩ := hc.head
   obtain ⟨h2, hc⟩ := hc.head
   have hstart : Steps P cfg inp code pc s f (pc + 1 + 1) s (f.set st.label (s.pos, s.ti)) :=
     (Steps.next (s' := s) (f' := f) h1 (by simp [stepLocal])).trans
       (Steps.next (s' := s) (f' := f.set st.label (s.pos, s.ti)) h2 (by simp [stepLocal]))
-  have h' := h st.label ko { st with label := st.label + 1 } code (pc + 1 + 1) s
+  have h' := h st.label ko pd pmk { st with label := st.label + 1 } code (pc + 1 + 1) s
     (f.set st.label (s.pos, s.ti)) (by simpa using hc) hp (Nat.lt_succ_self _)
-    (by simp [Frame.set, hp.pos])
+    (by simp [Frame.set, hp.pos]) hlead
   cases res with
   | ok p' forest =>
     obtain ⟨s', f', hS, hst⟩ := h'
@@ -38,12 +39,13 @@ theorem good_alt_of_goodAlt {es p res evs} (h : GoodAlt P cfg env inp es p res e
 /-- Last alternative: its failure is the failure of the choice. -/
 theorem goodAlt_last {e p res evs} (ih : Good P cfg env inp e p res evs) :
     GoodAlt P cfg env inp [e] p res evs := by
-  intro ok ko st code pc s f hc hp hok hf
+  intro ok ko pd pmk st code pc s f hc hp hok hf hlead
+  simp only [LeadL] at hlead
   simp only [compileAlt] at hc ⊢
   have hcb := hc.left.left
   obtain ⟨h1, _⟩ := hc.left.right.head
-  have hcl := hc.right.cast (b := pc + (compile env e ko false false st).code.length + 1) (by simp; omega)
-  have h' := ih ko st code pc s f hcb hp
+  have hcl := hc.right.cast (b := pc + (compile env e ko pd pmk st).code.length + 1) (by simp; omega)
+  have h' := ih ko pd pmk st code pc s f hcb hp hlead
   cases res with
   | ok p' forest =>
     obtain ⟨s', f', hS, hst⟩ := h'
@@ -60,7 +62,8 @@ theorem goodAlt_last {e p res evs} (ih : Good P cfg env inp e p res evs) :
 /-- An alternative other than the last succeeds: `goto ok`. -/
 theorem goodAlt_ok {e e' es p p1 f1 evs} (ih : Good P cfg env inp e p (.ok p1 f1) evs) :
     GoodAlt P cfg env inp (e :: e' :: es) p (.ok p1 f1) evs := by
-  intro ok ko st code pc s f hc hp hok hf
+  intro ok ko pd pmk st code pc s f hc hp hok hf hlead
+  simp only [LeadL] at hlead
   have hu : env.used ok = true := hp.usedIn hc (by simp only [compileAlt]; jmp)
   simp only [compileAlt] at hc ⊢
   have hcl := hc.right
@@ -71,7 +74,7 @@ theorem goodAlt_ok {e e' es p p1 f1 evs} (ih : Good P cfg env inp e p (.ok p1 f1
   simp only [List.append_assoc, List.cons_append, List.nil_append] at hcx
   have hca := hcx.left
   obtain ⟨h1, _⟩ := hcx.right.head
-  obtain ⟨s', f', hS, hst⟩ := ih st.label { st with label := st.label + 1 } code pc s f hca hp
+  obtain ⟨s', f', hS, hst⟩ := ih st.label pd pmk { st with label := st.label + 1 } code pc s f hca hp hlead
   refine ⟨s', f', hS.weaken (Nat.le_succ _), ?_⟩
   refine hst.trans ?_
   refine (Steps.jump (s' := s') (f' := f') h1 (by simp [stepLocal]) hlp).trans ?_
@@ -82,18 +85,19 @@ theorem goodAlt_ok {e e' es p p1 f1 evs} (ih : Good P cfg env inp e p (.ok p1 f1
 theorem goodAlt_next {e e' es p evs1 res evs2} (ih1 : Good P cfg env inp e p .fail evs1)
     (ih2 : GoodAlt P cfg env inp (e' :: es) p res evs2) :
     GoodAlt P cfg env inp (e :: e' :: es) p res (evs1 ++ evs2) := by
-  intro ok ko st code pc s f hc hp hok hf
+  intro ok ko pd pmk st code pc s f hc hp hok hf hlead
+  simp only [LeadL] at hlead
   simp only [compileAlt] at hc ⊢
   -- reassociate: prefix ++ (tail ++ [be] ++ lbl ok)
   have hc' : CodeAt code pc
-      ((compile env e st.label false false { st with label := st.label + 1 }).code ++
+      ((compile env e st.label pd pmk { st with label := st.label + 1 }).code ++
         (Instr.goto ok :: (env.lbl st.label ++ Instr.restore ok ::
           ((compileAlt env (e' :: es) ok ko false false
-              (compile env e st.label false false { st with label := st.label + 1 }).st).code ++
+              (compile env e st.label pd pmk { st with label := st.label + 1 }).st).code ++
             [Instr.be] ++ env.lbl ok)))) := by
     simpa [List.append_assoc] using hc
   have hca := hc'.left
-  obtain ⟨s2, fr2, hF, hj, hst⟩ := ih1 st.label { st with label := st.label + 1 } code pc s f hca hp
+  obtain ⟨s2, fr2, hF, hj, hst⟩ := ih1 st.label pd pmk { st with label := st.label + 1 } code pc s f hca hp hlead
   have hu : env.used st.label = true := hp.usedIn hca hj
   obtain ⟨_, hc2⟩ := hc'.right.head
   simp only [CEnv.lbl, hu, ↓reduceIte, List.cons_append, List.nil_append] at hc2
@@ -103,13 +107,13 @@ theorem goodAlt_next {e e' es p evs1 res evs2} (ih1 : Good P cfg env inp e p .fa
   have hfr : fr2 ok = (p, s.ti) := by rw [hF.frame ok (Nat.lt_succ_of_lt hok)]; exact hf
   have hp3 : Pre env inp code { s2 with pos := p, ti := s.ti } p :=
     hp.move rfl hp.ple hF.len hF.memo
-  have hmono := compile_mono env e st.label false false { st with label := st.label + 1 }
+  have hmono := compile_mono env e st.label pd pmk { st with label := st.label + 1 }
   have hsteps : Steps P cfg inp code pc s f _ { s2 with pos := p, ti := s.ti } fr2 :=
     (hst _ hlp).trans <|
     (Steps.next (s' := s2) (f' := fr2) h3 (by simp [stepLocal])).trans <|
     Steps.next (s' := { s2 with pos := p, ti := s.ti }) (f' := fr2) h4 (by simp [stepLocal, hfr])
-  have h' := ih2 ok ko _ code _ { s2 with pos := p, ti := s.ti } fr2 hc2 hp3
-    (by simp at hmono; omega) (by simpa using hfr)
+  have h' := ih2 ok ko false false _ code _ { s2 with pos := p, ti := s.ti } fr2 hc2 hp3
+    (by simp at hmono; omega) (by simpa using hfr) (LeadL_false _ _ _ _)
   cases res with
   | ok p' forest =>
     obtain ⟨s', f', hS, hst2⟩ := h'
